@@ -519,6 +519,7 @@ class Population:
                 ops += [['newpc', k, s] for s in self.spots[1:3]]
                 ops += [['edit', k, self.spots[3]]]
                 ops.append(['register', k])      # the user registers the position component with the model's pools
+                ops.append(['rename', k])        # the agent's id attribute is re-assigned while it lives in the world
                 ops.append(['remove', k])
             else:
                 ops += [['add', k, s] for s in self.spots]
@@ -553,6 +554,8 @@ class Population:
         elif op[0] == 'edit':
             pc = a[PC]
             pc.x, pc.y, pc.z = op[2]
+        elif op[0] == 'rename':
+            a.id = op[1] if a.id != op[1] else op[1] + '~'      # (the world knows the agent under the id it joined with)
         elif op[0] == 'register':
             try:
                 w.model.systems.register_component(a[PC])
